@@ -341,7 +341,9 @@ def main():
     ev = dict(property_id=pid, tier=tier, seed=seed, level="proof", coverage=cov, assumptions=cfg.get("assumptions", []), wall_s=round(time.time() - t0, 1), violations=len(violations) + (1 if (broken and not violations) else 0))
     from lib.common import write_json
 
-    write_json(os.path.join(VERIF, "evidence", pid + ".json"), ev)
+    # runs against a scratch copy of the repository (mutation self-tests) must not overwrite the committed evidence
+    evdir = "evidence" if os.path.realpath(REPO) == os.path.realpath("/repo") else "evidence_scratch"
+    write_json(os.path.join(VERIF, evdir, pid + ".json"), ev)
     for l in out_lines:
         print(l)
     log("[%s %s] obligations=%d discharged=%d corr_cases=%d broken=%s wall=%.1fs exit=%d" % (pid, tier, cov["obligations"], cov["discharged"], cases, [b.get("kind") for b in broken], time.time() - t0, exit_code))
